@@ -4,6 +4,7 @@ A history is a list of ops (tuples). `RealSession.run(op)` executes one op on a 
 real endpoints / session-manager API and returns a canonical outcome (JSON-able). Token values are replaced
 by indices in minting order (the model mints in the same order); everything random is thereby canonical.
 """
+import copy
 import json
 import srv
 
@@ -20,25 +21,38 @@ FIXED_AUTHZ = {
         "expires_in": 43200}},
 }
 
-CLIENTS = ["client_1", "client_2", "client_3"]
-USERS = ["diana", "babs", "upper"]
+CLIENTS = ["client_1", "client_2", "client_12"]
+USERS = ["diana", "babs", "dian"]      # "dian" is a proper string prefix of "diana", "client_1" of "client_12"
 CLS = {"authorization_code": 0, "access_token": 1, "refresh_token": 2, "id_token": 3}
 
 
 class RealSession:
-    def __init__(self, oidc=True, jwt_access=False, client_over=None, revoke_refresh_on_issue=False, start=1_700_000_000):
+    def __init__(self, oidc=True, jwt_access=False, client_over=None, revoke_refresh_on_issue=False, start=1_700_000_000,
+                 rules="explicit"):
+        """rules: how the usage rules reach the provider - "explicit" (grant_config spells max_usage: 1 for codes),
+        "implied" (grant_config lists supports_minting / expires_in only: the single use of a code is the library's own
+        default), "per-client" (the same implied rules as token_usage_rules of every client, no grant_config rules)"""
         self.oidc = oidc
+        self.rules = rules
         over = {
             "client_1": {"allowed_scopes": ["openid", "profile", "email", "offline_access"]},
             "client_2": {"allowed_scopes": ["openid", "email", "address", "offline_access", "phone"]},
-            "client_3": {},
+            "client_12": {},
         }
         for k, v in (client_over or {}).items():
             over.setdefault(k, {}).update(v)
         eps = {"token": {"revoke_refresh_on_issue": revoke_refresh_on_issue}} if revoke_refresh_on_issue else None
+        authz = copy.deepcopy(FIXED_AUTHZ)
+        if rules != "explicit":
+            ur = authz["kwargs"]["grant_config"]["usage_rules"]
+            ur["authorization_code"].pop("max_usage")
+            if rules == "per-client":
+                for c in CLIENTS:
+                    over.setdefault(c, {})["token_usage_rules"] = copy.deepcopy(ur)
+                authz["kwargs"]["grant_config"].pop("usage_rules")
         self.server = srv.make_server(clients=CLIENTS, client_over=over, oidc=oidc, jwt_access=jwt_access,
-                                      authz=FIXED_AUTHZ, endpoints=eps)
-        c3 = self.server.context.cdb["client_3"]
+                                      authz=authz, endpoints=eps)
+        c3 = self.server.context.cdb["client_12"]
         c3.pop("allowed_scopes", None)
         self.clock = srv.Clock(start).install()
         self.ctx = self.server.context
